@@ -833,6 +833,9 @@ META = (META[0] + ' ACCTYPE (folds over the words do not accumulate in an int de
 META = (META[0] + ' WORDSPLIT (every (word, offset) pair basic_bitset hands to a bit primitive is evaluated from the source for all positions and word widths: word pos / W, offset pos % W); CSTRN (the (pointer, n) constructor measures the array only in the `n == npos` arm); LITMASK (no mask is built by shifting an int / unsigned literal by a run-time offset; controls in fixtures/arith_pos.hpp).', META[1])
 
 
+META = (META[0] + ' SELFGUARD (a non-idempotent compound assignment such as ^= is not skipped for the object itself; controls in fixtures/extra10_pos.hpp).', META[1])
+
+
 def run(chk, tier):
     db = D.load("checks")
     from ..rules import params as _PR
@@ -856,6 +859,10 @@ def run(chk, tier):
     if _AR.acctype_area(chk, db, ['_bitset/']) < 1:      # ACCTYPE: folds over the words accumulate in the word type, not in int
         chk.unknown_instance("ACCTYPE", "etl::basic_bitset", "no fold over the words found")
     _AR.positive_controls(chk, D, ("ACCTYPE",))
+    from ..rules import extra10 as _X10
+    if _X10.self_guard_area(chk, db, ['_bitset/']) < 2:      # SELFGUARD: b ^= b clears
+        chk.analysis_broken('SELFGUARD: fewer than 2 non-idempotent compound assignments of the bitsets found (floor 2)')
+    _X10.positive_controls(chk, D, ('SELFGUARD',))
     from ..rules import shift as _SH
     _SH.check(chk, db, ["_bit/", "_bitset/"], floor=20)      # SHIFT: shift counts stay below the promoted operand width
     strbit_rule(chk, db)
